@@ -219,6 +219,27 @@ def contexts(meta):
     return uniq
 
 
+def random_word(cm, rng, depth=0):
+    """A random member of the language of a content model (repetitions kept short)."""
+    k = cm[0]
+    if k == "elt":
+        return [cm[1]]
+    if k == "any":
+        return []
+    if k == "seq":
+        return [t for c in cm[1] for t in random_word(c, rng, depth + 1)]
+    if k == "alt":
+        return random_word(rng.choice(cm[1]), rng, depth + 1) if cm[1] else []
+    if k == "rep":
+        mn, mx = cm[1], cm[2]
+        hi = mn + 3 if mx is None else min(mx, mn + 3)
+        n = rng.randint(mn, max(mn, hi))
+        if rng.random() < 0.35:
+            n = mn
+        return [t for _ in range(n) for t in random_word(cm[3], rng, depth + 1)]
+    return []
+
+
 def run(ck, tier, rng):
     # 1. translate from the current tree
     rc, out = _run(["/venv/bin/python", os.path.join(VERIF, "tx", "tx_c10.py")], cwd=VERIF)
@@ -277,7 +298,18 @@ def run(ck, tier, rng):
         S = [ids.get(s) for s in m["succ"] if s in ids]
         Sfield = "".join(chr(i) for i in S)
         members = None
-        for ctx in contexts(m):
+        ctxs = contexts(m)
+        if tier == "thorough":
+            # random schema-valid sibling sequences (long contexts, repeated children)
+            seen_ctx = {tuple(c) for c in ctxs}
+            for _ in range(40):
+                w = [t for t in random_word(m["cm_json"], rng) if t in ids and t in m["pyranks"]]
+                if m["kind"] != "ZeroOrMore" and m["kind"] != "OneOrMore" and not m["pyranks"][m["child"]][1]:
+                    w = [t for t in w if t != m["child"]]
+                if tuple(w) not in seen_ctx and len(w) <= 60:
+                    seen_ctx.add(tuple(w))
+                    ctxs.append(w)
+        for ctx in ctxs:
             cf = "".join(chr(ids[t]) for t in ctx)
             if m.get("first"):
                 ops = [("ins", ["fst", chr(x), cf])]
